@@ -24,6 +24,9 @@ type C04Case struct {
 	Unit   string `json:"unit,omitempty"`
 	Depth  int    `json:"depth,omitempty"`
 	Closed bool   `json:"closed,omitempty"`
+	// mode concurrent: these inputs are parsed by several goroutines at the same time; each must
+	// give the outcome it gives when parsed alone
+	Many []RawBytes `json:"many,omitempty"`
 }
 
 // deepNestingLimit: nesting depths above this are never generated. The parser recurses once per
@@ -146,6 +149,13 @@ func GenC04(t *rapid.T) *C04Case {
 			max = deepNestingLimit
 		}
 		return &C04Case{Mode: "deep", Unit: deepUnits[drawIdx(t, len(deepUnits), "unit")], Depth: drawInt(t, 1000, max, "depth"), Closed: drawBool(t, "closed")}
+	}
+	if oneIn(t, 40, "concurrent") {
+		c := &C04Case{Mode: "concurrent"}
+		for i, n := 0, drawInt(t, 2, 4, "nmany"); i < n; i++ {
+			c.Many = append(c.Many, RawBytes(genBytes(t)))
+		}
+		return c
 	}
 	if oneIn(t, 25, "filedoc") {
 		// documents that are (nearly) valid objects with the layouts a file reader might mangle:
@@ -518,6 +528,56 @@ func CheckC04(c *C04Case, st *Stats) error {
 		}
 		st.Count("mode.doc")
 		return checkDoc(*c.Root, st)
+	case "concurrent":
+		st.Count("mode.concurrent")
+		if len(c.Many) >= 2 {
+			st.MarkNonTrivial()
+		}
+		type outcome struct{ l, o parseOutcome }
+		alone := make([]outcome, len(c.Many))
+		for i, b := range c.Many {
+			var err error
+			if alone[i].l, err = guarded("ParseList", callParseList(string(b))); err != nil {
+				return errf("%v on input %q", err, clip(string(b), 200))
+			}
+			if alone[i].o, err = guarded("ParseObject", callParseObject(string(b))); err != nil {
+				return errf("%v on input %q", err, clip(string(b), 200))
+			}
+		}
+		errs := make([]error, len(c.Many))
+		start := make(chan struct{})
+		var wg sync.WaitGroup
+		for i := range c.Many {
+			wg.Add(1)
+			go func(i int) {
+				defer wg.Done()
+				<-start
+				in := string(c.Many[i])
+				for rep := 0; rep < 6 && errs[i] == nil; rep++ {
+					l, err := guarded("ParseList", callParseList(in))
+					if err == nil {
+						err = sameOutcome("ParseList (concurrently with other parses vs alone)", l, alone[i].l)
+					}
+					if err == nil {
+						var o parseOutcome
+						if o, err = guarded("ParseObject", callParseObject(in)); err == nil {
+							err = sameOutcome("ParseObject (concurrently with other parses vs alone)", o, alone[i].o)
+						}
+					}
+					if err != nil {
+						errs[i] = errf("%v on input %q", err, clip(in, 200))
+					}
+				}
+			}(i)
+		}
+		close(start)
+		wg.Wait()
+		for _, e := range errs {
+			if e != nil {
+				return e
+			}
+		}
+		return nil
 	case "deep":
 		if _, ok := map[string]bool{"[": true, "{\"a\":": true, "[{\"k\":": true, "{\"\":[": true}[c.Unit]; !ok || c.Depth < 0 {
 			return nil
